@@ -1073,6 +1073,9 @@ func (i *interpreter) rangeIter(x value) iter {
 				}
 			}
 		}
+		if i.p.globalOrder && len(it.rest) > 1 {
+			i.orderByGlobalRank(it.rest)
+		}
 		return it
 	case string:
 		return &stringIter{Reader: strings.NewReader(x)}
